@@ -158,6 +158,10 @@ def extra_checks(tier, seed):
     entered before children, nothing of a later state before an earlier state's callback completed)"""
     n = 250 if tier == 'quick' else 8000
     cases, bad = hsm.async_stream('C02a', seed, n, p_parallel=0.35)
+    # the same with events declared in several scopes (inside state definitions and globally): a state entered by an
+    # inner scope's transition must not be exited again by an enclosing scope's transition of the same event
+    cases2, bad2 = hsm.async_stream('C02m', seed, n // 2, p_parallel=0.35, single_scope=False, max_events=2)
+    cases, bad = cases + cases2, bad + bad2
     detail = dict(cases=len(cases), disagreements=len(bad))
     out = []
     if bad:
